@@ -49,6 +49,15 @@
 (* answers the headers and never the body) crossed with what bounds the    *)
 (* back-channel call: the SP's own client timeout, or only the context of  *)
 (* the incoming request (deadline, explicit cancellation).                 *)
+(* And the life of the BODY of the back-channel answer as                  *)
+(* handleArtifactRequest sees it: obtained from Do, the deferred Close     *)
+(* registered, read chunk by chunk by io.ReadAll - a Read may fail, or     *)
+(* stall, before the first byte, in the middle, or after the last byte in  *)
+(* place of the end of the stream - and closed by the deferred function    *)
+(* at WHATEVER return of handleArtifactRequest comes (a refusal of the     *)
+(* status, of the read, of anything in ParseXMLArtifactResponse below it,  *)
+(* or the return of the assertion); that Close may itself fail - after a   *)
+(* complete valid body, after a truncated one, after an invalid one.       *)
 (*                                                                         *)
 (* Named deviations.                                                       *)
 (*   Unguarded \subseteq Sites   dereference sites at which the modelled   *)
@@ -71,12 +80,19 @@
 (*       stalled endpoint and a client without a timeout of its own leave  *)
 (*       nothing that ends the wait: TLC refutes NoHang                    *)
 (*       (Totality_ctxdropped.cfg).                                        *)
+(*   CloseFailure  what the deferred function of handleArtifactRequest     *)
+(*       does with an error of response.Body.Close(): "logged" (the        *)
+(*       registered design and the code: it is written to the log, what    *)
+(*       the function returns stays what it was), "returned" (when nothing *)
+(*       else failed the close failure becomes the returned error - and    *)
+(*       the assertion that was being returned stays).  With "returned"    *)
+(*       TLC refutes AssertionIffNoError (Totality_closeerr.cfg).          *)
 (*                                                                         *)
 (* The Properties section is written from the statement of C09 only.       *)
 (***************************************************************************)
 EXTENDS Integers, Sequences, FiniteSets, TLC, Json
 
-CONSTANTS Tier, Unguarded, Unwrapped, DepthRestore, ContextDropped
+CONSTANTS Tier, Unguarded, Unwrapped, DepthRestore, ContextDropped, CloseFailure
 
 \* dereference sites: <consumer>:<part whose absence reaches it>
 Sites == {"RespRootNil",       \* ParseXMLResponse: doc.Root() of a rootless document
@@ -113,6 +129,7 @@ Wrappers == {"handleArtifactRequest", "parseResponseHTTP", "ParseXMLArtifactResp
 ASSUME Unguarded \subseteq Sites /\ Unwrapped \subseteq Wrappers
 ASSUME DepthRestore \in {"parent", "wipe", "nobound"}
 ASSUME ContextDropped \in BOOLEAN
+ASSUME CloseFailure \in {"logged", "returned"}
 
 \* fired: the dereference sites reached, in order, whose part was absent (where unguarded code panics)
 VARIABLES in, pc, sigReq, hasSig, ai, cj, firstFail, accepted, asn, err, verdict, step, fired,
@@ -130,10 +147,15 @@ VARIABLES in, pc, sigReq, hasSig, ai, cj, firstFail, accepted, asn, err, verdict
           \* unwrapped session key), the elements of the active Decrypt calls (innermost last: "sib" the
           \* EncryptedKey next to EncryptedData, "in" the one inside EncryptedData/KeyInfo, "data" EncryptedData),
           \* what the last call returned
-          dkey, dstk, xdRes
+          dkey, dstk, xdRes,
+          \* the body of the back-channel answer: "none" (no answer was obtained) | "open" (Do has returned a
+          \* response, the deferred Close is registered) | "closed" (the deferred function has run); the
+          \* chunks io.ReadAll has read from it; whether a failure of Close was written to the log
+          body, rd, clog
 sv == <<vsEl, vsRet, sigRes, respSig>>
 nv == <<pos, ctr, frames>>
-xv == <<octx, dkey, dstk, xdRes>>
+bv == <<body, rd, clog>>
+xv == <<octx, dkey, dstk, xdRes, bv>>
 vars == <<in, pc, sigReq, hasSig, ai, cj, firstFail, accepted, asn, err, verdict, step, fired, sv, nv, xv>>
 
 ----------------------------------------------------------------------------
@@ -154,8 +176,8 @@ Resp(iss, dest, irt, status, sig, assns) ==
   [iss |-> iss, dest |-> dest, irt |-> irt, status |-> status, sig |-> sig, assns |-> assns]
 GoodResp == Resp(TRUE, TRUE, TRUE, "ok", FALSE, <<GoodAssn>>)
 
-Env(body, nar, iss, status, sig, irt, inner) ==
-  [body |-> body, nar |-> nar, iss |-> iss, status |-> status, sig |-> sig, irt |-> irt, inner |-> inner]
+Env(sbody, nar, iss, status, sig, irt, inner) ==
+  [body |-> sbody, nar |-> nar, iss |-> iss, status |-> status, sig |-> sig, irt |-> irt, inner |-> inner]
 GoodEnv == Env(TRUE, 1, TRUE, "ok", FALSE, TRUE, TRUE)
 
 \* framing of the byte string handed to the entry point
@@ -177,6 +199,18 @@ ClientCls == {"default", "custom", "timeout"}
 \* a stalled endpoint with neither a client timeout nor a context that ends is outside the statement:
 \* there is nothing by which the call could return (configuration, not input)
 BoundedBy(b, c) == IF b = "client" THEN c = "timeout" ELSE c \in {"default", "custom"}
+\* the body of the answer, as io.ReadAll sees it: NChunks chunks, then the end of the stream (a scaled-down
+\* walk: a chunk stands for half of the real body, in however many Reads io.ReadAll fetches it).  A Read that fails ("readerr") or never returns
+\* ("stallbody") does so at a point: before the first byte | after half of the body | after ALL of it,
+\* in place of the end of the stream (a connection that is reset, or goes silent, where the peer
+\* should have finished)
+NChunks   == 2
+RdPtCls   == {"start", "mid", "end"}
+RdPt(p)   == CASE p = "start" -> 0 [] p = "mid" -> 1 [] p = "end" -> NChunks
+\* what response.Body.Close() returns
+CloseCls  == {"ok", "err"}
+\* the endpoints from which Do brings a response (and with it a body to close)
+NoBodyCls == {"connerr", "stall"}
 
 RespEntries   == {"xml", "post", "artxml", "artifact"}
 LogoutEntries == {"form", "redirect", "req-post", "req-get"}
@@ -208,7 +242,7 @@ FirstHint(h) == CASE h = "two" -> "own" [] h = "twoec" -> "ec" [] OTHER -> h
 
 RespInX(fam, e, f, r, al, env, resp, t, k, x) ==
   [fam |-> fam, entry |-> e, framing |-> f, res |-> r, allowIdp |-> al, env |-> env, resp |-> resp, trust |-> t, ki |-> k,
-   encx |-> x, bound |-> "none", client |-> "custom"]
+   encx |-> x, bound |-> "none", client |-> "custom", rdpt |-> "mid", close |-> "ok"]
 RespInT(fam, e, f, r, al, env, resp, t, k) == RespInX(fam, e, f, r, al, env, resp, t, k, GoodEncX)
 RespIn(fam, e, f, r, al, env, resp) == RespInT(fam, e, f, r, al, env, resp, "md1", "cert")
 
@@ -317,19 +351,41 @@ InitCrossFam ==
     RespParts(LAMBDA iss, dest, irt, st, sg :
       AssnParts(LAMBDA a : in = RespIn("cross", "xml", "ok", "ok", al, GoodEnv, Resp(iss, dest, irt, st, sg, <<a>>))))
 
-\* every subset of the SOAP envelope / ArtifactResponse parts; every resolver behaviour
+\* every subset of the SOAP envelope / ArtifactResponse parts (over HTTP: x whether the body closes
+\* cleanly); every resolver behaviour
 InitArtFam ==
-  \/ \E e \in {"artxml", "artifact"}, body \in BOOLEAN, nar \in 0..2, iss \in BOOLEAN, st \in StatusCls,
-        sg \in BOOLEAN, irt \in BOOLEAN, inner \in BOOLEAN, ins \in {"resp", "assn", "none"} :
-       /\ (~body => nar = 0)
-       /\ in = RespIn("art", e, "ok", "ok", FALSE, Env(body, nar, iss, st, sg, irt, inner),
-                      [GoodResp EXCEPT !.sig = (ins = "resp"), !.assns = <<[GoodAssn EXCEPT !.sig = (ins = "assn")]>>])
-  \/ \E r \in ResCls \ StallCls :
-       in = RespIn("resolver", "artifact", "ok", r, FALSE, GoodEnv, GoodResp)
-  \* a stalled endpoint x what bounds the call x the SP's HTTP client
-  \/ \E r \in StallCls, b \in BoundCls, c \in ClientCls :
+  \/ \E e \in {"artxml", "artifact"}, body_ \in BOOLEAN, nar \in 0..2, iss \in BOOLEAN, st \in StatusCls,
+        sg \in BOOLEAN, irt \in BOOLEAN, inner \in BOOLEAN, ins \in {"resp", "assn", "none"}, cl \in CloseCls :
+       /\ (~body_ => nar = 0)
+       /\ (cl = "err" => e = "artifact")
+       /\ in = [RespIn("art", e, "ok", "ok", FALSE, Env(body_, nar, iss, st, sg, irt, inner),
+                       [GoodResp EXCEPT !.sig = (ins = "resp"), !.assns = <<[GoodAssn EXCEPT !.sig = (ins = "assn")]>>])
+                 EXCEPT !.close = cl]
+  \* every behaviour of the endpoint x whether the body (when there is one) closes cleanly; a Read that
+  \* fails does so at every point
+  \/ \E r \in ResCls \ StallCls, p \in RdPtCls, cl \in CloseCls :
+       /\ (r # "readerr" => p = "mid")
+       /\ (r \in NoBodyCls => cl = "ok")
+       /\ in = [RespIn("resolver", "artifact", "ok", r, FALSE, GoodEnv, GoodResp) EXCEPT !.rdpt = p, !.close = cl]
+  \* a stalled endpoint x what bounds the call x the SP's HTTP client (x the point at which the body goes
+  \* silent x whether it closes cleanly afterwards: the body of http.DefaultClient is not the harness's to fail)
+  \/ \E r \in StallCls, b \in BoundCls, c \in ClientCls, p \in RdPtCls, cl \in CloseCls :
        /\ BoundedBy(b, c)
-       /\ in = [RespIn("resolver", "artifact", "ok", r, FALSE, GoodEnv, GoodResp) EXCEPT !.bound = b, !.client = c]
+       /\ (r = "stall" => p = "mid" /\ cl = "ok")
+       /\ (cl = "err" => c # "default")
+       /\ in = [RespIn("resolver", "artifact", "ok", r, FALSE, GoodEnv, GoodResp)
+                 EXCEPT !.bound = b, !.client = c, !.rdpt = p, !.close = cl]
+  \* a body that closes cleanly / whose Close fails around the few assertion sequences (accepted, refused,
+  \* several, encrypted)
+  \/ \E as \in FewAssnSeqs, rs \in BOOLEAN, cl \in CloseCls :
+       in = [RespIn("body", "artifact", "ok", "ok", FALSE, GoodEnv, [GoodResp EXCEPT !.sig = rs, !.assns = as])
+             EXCEPT !.close = cl]
+\* (thorough) a body whose Close fails x every trust configuration x KeyInfo shape x place of a signature
+InitBodyTrustFam ==
+  \E t \in TrustCls, k \in SigKiCls, es \in BOOLEAN, rs \in BOOLEAN, as \in BOOLEAN, en \in EncCls :
+    in = [RespInT("body", "artifact", "ok", "ok", FALSE, [GoodEnv EXCEPT !.sig = es],
+                  [GoodResp EXCEPT !.sig = rs, !.assns = <<[GoodAssn EXCEPT !.sig = as, !.enc = en]>>], t, k)
+          EXCEPT !.close = "err"]
 
 Sensible(e, f) == /\ (f \in {"notb64", "b64garbage"} => e \in B64Entries)
                   /\ (f \in {"bomb", "bombvalid", "truncdeflate"} => e \in DeflateEntries)
@@ -339,7 +395,8 @@ InitFrameFam ==
     /\ Sensible(e, f)
     /\ in = [fam |-> "frame", entry |-> e, framing |-> f, res |-> "ok", allowIdp |-> FALSE, env |-> GoodEnv,
              resp |-> [GoodResp EXCEPT !.sig = TRUE], lo |-> GoodLo, rq |-> GoodRq, md |-> GoodSPMD,
-             trust |-> "md1", ki |-> "cert", encx |-> GoodEncX, bound |-> "none", client |-> "custom"]
+             trust |-> "md1", ki |-> "cert", encx |-> GoodEncX, bound |-> "none", client |-> "custom",
+             rdpt |-> "mid", close |-> "ok"]
 
 InitLogoutFam ==
   \E e \in LogoutEntries, iss \in BOOLEAN, dest \in BOOLEAN, st \in StatusCls, sg \in BOOLEAN, ii \in BOOLEAN, irt \in BOOLEAN :
@@ -427,7 +484,7 @@ InitT == \/ InitAssnFam(RespEntries, BOOLEAN)
          \/ InitCrossFam
          \/ InitArtFam \/ InitFrameFam \/ InitLogoutFam \/ InitAuthnFam
          \/ InitSPMDFam(TRUE) \/ InitIDPMDFam(TRUE)
-         \/ InitTrustFam(TRUE) \/ InitTrustRespFam \/ InitNestFam \/ InitEncFam(TRUE)
+         \/ InitTrustFam(TRUE) \/ InitTrustRespFam \/ InitNestFam \/ InitEncFam(TRUE) \/ InitBodyTrustFam
 
 IsResp   == in.entry \in RespEntries
 IsLogout == in.entry \in LogoutEntries
@@ -448,6 +505,7 @@ Init == /\ CASE Tier = "q" -> InitQ [] Tier = "t" -> InitT
         /\ vsEl = "none" /\ vsRet = "none" /\ sigRes = "none" /\ respSig = "none"
         /\ pos = 1 /\ ctr = 0 /\ frames = <<>>
         /\ octx = "none" /\ dkey = "rsa" /\ dstk = <<>> /\ xdRes = "none"
+        /\ body = "none" /\ rd = 0 /\ clog = FALSE
 
 ----------------------------------------------------------------------------
 (* outcomes *)
@@ -460,11 +518,15 @@ Goto(l) == GotoF(l) /\ UNCHANGED fired
 InnerWrapper == IF in.entry \in {"artxml", "artifact"} THEN "parseArtifactResponse" ELSE "ParseXMLResponse"
 ErrKind(w) == IF w = "plain" \/ w \in Unwrapped THEN "plain" ELSE "IRE"
 
+\* where a return of the entry point leads: while the body of the back-channel answer is open the deferred
+\* function of handleArtifactRequest runs first (every consumer below it returns THROUGH it)
+RetPc == IF body = "open" THEN "ArtDeferClose" ELSE "done"
+
 \* return an error through wrapper w ("plain": the code returns the bare error here)
-RejectF(why, w) == /\ pc' = "done" /\ verdict' = "error" /\ step' = why /\ err' = ErrKind(w) /\ asn' = "nil"
+RejectF(why, w) == /\ pc' = RetPc /\ verdict' = "error" /\ step' = why /\ err' = ErrKind(w) /\ asn' = "nil"
                    /\ UNCHANGED <<sigReq, hasSig, ai, cj, firstFail, accepted, sv, nv, xv>>
 Reject(why, w) == RejectF(why, w) /\ UNCHANGED fired
-Succeed == /\ pc' = "done" /\ verdict' = "ok" /\ step' = "none" /\ err' = "nil"
+Succeed == /\ pc' = RetPc /\ verdict' = "ok" /\ step' = "none" /\ err' = "nil"
            /\ asn' = IF IsResp THEN "set" ELSE "nil"
            /\ UNCHANGED <<sigReq, hasSig, ai, cj, firstFail, accepted, fired, sv, nv, xv>>
 Panic(site) == /\ pc' = "Panic" /\ verdict' = "panic" /\ step' = site
@@ -516,7 +578,7 @@ ArtBuild == /\ pc = "ArtBuild" /\ Keep /\ Goto("ArtNewReq")
 ArtNewReq == /\ pc = "ArtNewReq" /\ Keep
              /\ octx' = IF ContextDropped THEN "background" ELSE "request"
              /\ pc' = "ArtClient"
-             /\ UNCHANGED <<sigReq, hasSig, ai, cj, firstFail, accepted, asn, err, verdict, step, fired, sv, nv, dkey, dstk, xdRes>>
+             /\ UNCHANGED <<sigReq, hasSig, ai, cj, firstFail, accepted, asn, err, verdict, step, fired, sv, nv, dkey, dstk, xdRes, bv>>
 \* :779 sp.HTTPClient, or http.DefaultClient when it is nil
 ArtClient == /\ pc = "ArtClient" /\ Keep /\ Goto("ArtDo")
 \* a wait on the endpoint ends when the endpoint answers, when the client's own timer fires, or when the
@@ -529,15 +591,38 @@ Block(at) == /\ pc' = "Blocked" /\ verdict' = "hang" /\ step' = at
 ArtDo == /\ pc = "ArtDo" /\ Keep
          /\ CASE in.res = "connerr" -> Reject("Resolve", "handleArtifactRequest")
               [] in.res = "stall" -> (IF WaitEnds THEN Reject("Resolve", "handleArtifactRequest") ELSE Block("ArtDo"))
-              [] OTHER -> Goto("ArtHTTPStatus")
+              [] OTHER -> Goto("ArtDefer")
+\* :788 Do has returned a response: its body is open, and the deferred function that closes it is registered
+ArtDefer == /\ pc = "ArtDefer" /\ Keep
+            /\ body' = "open" /\ pc' = "ArtHTTPStatus"
+            /\ UNCHANGED <<sigReq, hasSig, ai, cj, firstFail, accepted, asn, err, verdict, step, fired, sv, nv, octx, dkey, dstk, xdRes, rd, clog>>
 \* :793 the status must be 200
 ArtHTTPStatus == /\ pc = "ArtHTTPStatus" /\ Keep
                  /\ IF in.res = "non200" THEN Reject("Resolve", "handleArtifactRequest") ELSE Goto("ArtReadAll")
-\* :797 io.ReadAll(response.Body): read errors; a body that never comes is a wait like the one in Do
+\* :797 io.ReadAll(response.Body), Read by Read: a Read that fails ends it with that error however much
+\* came before; a Read that never returns is a wait like the one in Do; the end of the stream ends it well
+\* (a body that was cut short by the peer ends like a complete one: what came is handed on)
+AtRdPt == rd = RdPt(in.rdpt)
 ArtReadAll == /\ pc = "ArtReadAll" /\ Keep
-              /\ CASE in.res = "readerr" -> Reject("Resolve", "handleArtifactRequest")
-                   [] in.res = "stallbody" -> (IF WaitEnds THEN Reject("Resolve", "handleArtifactRequest") ELSE Block("ArtReadAll"))
-                   [] OTHER -> Goto("XRV")
+              /\ CASE in.res = "readerr" /\ AtRdPt -> Reject("Resolve", "handleArtifactRequest")
+                   [] in.res = "stallbody" /\ AtRdPt ->
+                        (IF WaitEnds THEN Reject("Resolve", "handleArtifactRequest") ELSE Block("ArtReadAll"))
+                   [] OTHER ->
+                        IF rd < NChunks
+                          THEN /\ rd' = rd + 1
+                               /\ UNCHANGED <<pc, sigReq, hasSig, ai, cj, firstFail, accepted, asn, err, verdict, step, fired,
+                                              sv, nv, octx, dkey, dstk, xdRes, body, clog>>
+                          ELSE Goto("XRV")
+\* :788-792 the deferred function, at whatever return: response.Body.Close(); a failure of it is written
+\* to the log and changes NOTHING of what is being returned (the assertion and a nil error after a
+\* resolution that succeeded, nil and the error after one that did not)
+ArtDeferClose == /\ pc = "ArtDeferClose" /\ Keep
+                 /\ body' = "closed" /\ pc' = "done"
+                 /\ clog' = (in.close = "err")
+                 /\ IF in.close = "err" /\ CloseFailure = "returned" /\ err = "nil"
+                      THEN err' = "IRE" /\ verdict' = "error" /\ step' = "BodyClose"
+                      ELSE UNCHANGED <<err, verdict, step>>
+                 /\ UNCHANGED <<sigReq, hasSig, ai, cj, firstFail, accepted, asn, fired, sv, nv, octx, dkey, dstk, xdRes, rd>>
 
 \* ValidateLogoutResponseRequest :1630  a non-empty query parameter selects the redirect decoder
 LoDispatch == /\ pc = "LoDispatch" /\ Keep /\ Goto("B64")
@@ -656,7 +741,7 @@ DerefA(site, absent, next) ==
 \* decryptElement :1137 starts with sp.Key in hand
 ADecrypt == /\ pc = "ADecrypt" /\ Keep
             /\ pc' = (IF A.enc = "no" THEN "ASig" ELSE "DEFindData") /\ dkey' = "rsa"
-            /\ UNCHANGED <<sigReq, hasSig, ai, cj, firstFail, accepted, asn, err, verdict, step, fired, sv, nv, octx, dstk, xdRes>>
+            /\ UNCHANGED <<sigReq, hasSig, ai, cj, firstFail, accepted, asn, err, verdict, step, fired, sv, nv, octx, dstk, xdRes, bv>>
 
 \* ---- decryptElement :1131 (C11 covers malformed ciphertext)
 X == in.encx
@@ -665,12 +750,12 @@ HasInner == X.place \in {"inside", "both"} /\ A.enc # "nokey"
 Top == dstk[Len(dstk)]
 \* xmlenc.Decrypt(key, el) is called for element el
 CallXD(el) == /\ pc' = "XDMethod" /\ dstk' = Append(dstk, el) /\ xdRes' = "none"
-              /\ UNCHANGED <<sigReq, hasSig, ai, cj, firstFail, accepted, asn, err, verdict, step, fired, sv, nv, octx, dkey>>
+              /\ UNCHANGED <<sigReq, hasSig, ai, cj, firstFail, accepted, asn, err, verdict, step, fired, sv, nv, octx, dkey, bv>>
 \* ... and returns to where it was called: "ok" with the plaintext (a session key when el is an EncryptedKey), or "err"
 RetLabel(el) == CASE el = "sib" -> "DESibRet" [] el = "in" -> "BCInnerRet" [] el = "data" -> "DEDataRet"
 ReturnXDF(res) == /\ pc' = RetLabel(Top) /\ dstk' = SubSeq(dstk, 1, Len(dstk) - 1) /\ xdRes' = res
                   /\ dkey' = IF res = "ok" /\ Top # "data" THEN "bytes" ELSE dkey
-                  /\ UNCHANGED <<sigReq, hasSig, ai, cj, firstFail, accepted, asn, err, verdict, step, sv, nv, octx>>
+                  /\ UNCHANGED <<sigReq, hasSig, ai, cj, firstFail, accepted, asn, err, verdict, step, sv, nv, octx, bv>>
 ReturnXD(res) == ReturnXDF(res) /\ UNCHANGED fired
 \* a dereference / type assertion inside xmlenc: the design's guard makes Decrypt return an error
 DerefXD(site, absent, next) ==
@@ -940,7 +1025,7 @@ SPTrust == /\ pc = "SPTrust" /\ Keep
 ----------------------------------------------------------------------------
 Terminated == pc \in {"done", "Panic", "Blocked"} /\ UNCHANGED vars
 
-Next == \/ ArtBuild \/ ArtNewReq \/ ArtClient \/ ArtDo \/ ArtHTTPStatus \/ ArtReadAll
+Next == \/ ArtBuild \/ ArtNewReq \/ ArtClient \/ ArtDo \/ ArtDefer \/ ArtHTTPStatus \/ ArtReadAll \/ ArtDeferClose
         \/ DEFindData \/ DESibKey \/ DESibRet \/ DEData \/ DEDataRet \/ DEPlainXRV \/ DEPlainParse \/ DEPlainRoot
         \/ XDMethod \/ XDAlg \/ RKKeyType \/ RKHintFind \/ RKHintPEM \/ RKHintParse \/ RKHintKeyType \/ RKHintMatch
         \/ RKCipher \/ RKDigest \/ RKMGF \/ RKUnwrap
@@ -976,7 +1061,9 @@ ResultOrError == Done => verdict \in {"ok", "error"} /\ (verdict = "error" <=> e
 
 \* "Response-parsing failures are reported as InvalidResponseError ... the assertion is nil exactly
 \* when the error is non-nil, and the same holds when artifact resolution over HTTP fails or
-\* returns garbage" - the three response-parsing entry points, all four ways of reaching them
+\* returns garbage" - the three response-parsing entry points, all four ways of reaching them.  Done is
+\* the return of the ENTRY POINT: for ParseResponse with an artifact that is after the deferred function
+\* of handleArtifactRequest has closed the body of the back-channel answer, whatever that Close returned
 AssertionIffNoError == Done /\ IsResp => (asn = "nil" <=> err # "nil")
 ErrorShape == Done /\ IsResp /\ err # "nil" => err = "IRE"
 
@@ -987,7 +1074,14 @@ BombRefused == Done /\ in.framing \in {"bomb", "bombvalid"} => verdict = "error"
 \* obligation to return (class Total), whatever the verdict
 Class == IF in.framing \in {"bomb", "bombvalid"} THEN "MustReject" ELSE "Total"
 
+\* model sanity (not from the statement): the body is read only while it is open, an entry point
+\* never returns with it open, the log holds a close failure only when there was one
+BodyLife == /\ body \in {"none", "open", "closed"} /\ rd \in 0..NChunks
+            /\ (body = "none" => rd = 0 /\ ~clog)
+            /\ (Done => body # "open")
+            /\ (clog => body = "closed" /\ in.close = "err")
+
 Emit == Done => PrintT(<<"VEC", ToJson([prop |-> "C09", in |-> in, class |-> Class,
                                         pred |-> [verdict |-> verdict, step |-> step, err |-> err,
-                                                  fired |-> fired]])>>)
+                                                  fired |-> fired, body |-> body, clog |-> clog]])>>)
 =============================================================================
